@@ -199,6 +199,7 @@ def finish(prop, results, N, t, sd, t0, extra_cov=None, extra_viol=(), extra_inc
         known_findings_hit=known_hits, violations_reported=reported, unconfirmed_counterexamples=unconfirmed,
     )
     if extra_cov: cov.update(extra_cov)
+    cov['built_from'] = dict(harness.LLW_INFO) or dict(repo=harness.REPO, source_digest=harness.source_digest())   # which source tree this run compiled
     ev = dict(property_id=prop, tier=t, seed=sd, level='model_checking', coverage=cov, wall_s=round(time.time() - t0, 2),
               violations=reported,
               assumptions=['grammars are enumerated concretely (corpus), inputs are symbolic up to the token bound',
